@@ -9,6 +9,7 @@ open OpsBind
 def dTok (j : Json) : Except String Tok :=
   match j with
   | .str "syntax" => .ok .syntaxError
+  | .str "include" => .ok .includeError
   | _ =>
     match j.getObjVal? "tree", j.getObjVal? "raised" with
     | .ok t, _ => (dTree t).map .tree
@@ -54,7 +55,14 @@ def outcome (r : Except Err Val) : Json :=
 
 def run (op : String) (a : Json) : Option (Except String Json) :=
   match op with
-  | "fault.document" | "fault.document.lxml" => some do
+  | "bind.parse_u" => some do
+      let Γ ← dCtx (field a "ctx")
+      let t ← dTree (field a "tree")
+      let c ← dStr (field a "clazz")
+      pure <| match parseRootU benv Γ (dCfg (field a "config")) c t with
+        | .ok (v, w) => ok (jObj [("value", jVal v), ("warnings", jNat w)])
+        | .error e => jErr e
+  | "fault.document" | "fault.document.lxml" | "fault.document.xinclude" => some do
       let Γ ← dCtx (field a "ctx")
       let tok ← dTok (field a "tok")
       let c ← dStr (field a "clazz")
